@@ -15,7 +15,7 @@ BOUNDS = {'quick': 'singles + repeats + 150 pairs + 120 nestings (seeded slice);
                    'one-level nestings'}
 OUTSIDE = 'documents outside the family (deeper nesting, other packages); non-comment surroundings'
 ASSUMPTIONS = ['event annotations of vf/docs.py (written from the property texts and README, '
-               'calibrated on the unchanged tree: 4217 documents agree)',
+               'calibrated natively on the tree under test: 4651 documents agree (tools/calibrate.py))',
                'scanner re-basing + stderr stub as for C01']
 
 
